@@ -115,7 +115,26 @@ class Rng:
 
 
 # ------------------------------------------------------------------------------------------ Coq
+COQPROJECT_HEADER = """-Q theories WB
+-arg -w -arg -notation-overridden,-deprecated-hint-without-locality,-deprecated-instance-without-locality,-ambiguous-paths,-deprecated-syntactic-definition
+"""
+
+
+def coq_project():
+    """_CoqProject lists every .v file under coq/theories (regenerated whenever the set changes)."""
+    vs = []
+    for d, _, fs in os.walk(os.path.join(COQ, "theories")):
+        for f in fs:
+            if f.endswith(".v") and not f.startswith("."):
+                vs.append(os.path.relpath(os.path.join(d, f), COQ))
+    txt = COQPROJECT_HEADER + "\n".join(sorted(vs)) + "\n"
+    cp = os.path.join(COQ, "_CoqProject")
+    if not os.path.exists(cp) or open(cp).read() != txt:
+        open(cp, "w").write(txt)
+
+
 def coq_makefile():
+    coq_project()
     mk = os.path.join(COQ, "Makefile")
     cp = os.path.join(COQ, "_CoqProject")
     if not os.path.exists(mk) or os.path.getmtime(mk) < os.path.getmtime(cp):
@@ -283,12 +302,36 @@ def ocaml_build(name, extracted, sources, timeout=600):
 
 
 # ------------------------------------------------------------------------------------------ cargo
+def harness_dir():
+    """/verif/harness when checking /repo; otherwise (VERIF_REPO=<scratch worktree>, used to try a check
+    against a modified copy without touching /repo) a mirrored copy whose '/repo/' paths are rewritten."""
+    if os.path.realpath(REPO) == "/repo":
+        return HARNESS
+    tag = hashlib.sha256(os.path.realpath(REPO).encode()).hexdigest()[:10]
+    d = os.path.join(BUILD, "harness-" + tag)
+    os.makedirs(d, exist_ok=True)
+    sh(["rsync", "-a", "--delete", "--exclude", "target", "--exclude", "target-hook", "--exclude", "Cargo.lock",
+        HARNESS + "/", d + "/"], timeout=300)
+    for dd, _, fs in os.walk(d):
+        if "/target" in dd:
+            continue
+        for f in fs:
+            if f.endswith((".toml", ".rs")):
+                p = os.path.join(dd, f)
+                t = open(p).read()
+                t2 = t.replace('"/repo/', '"%s/' % os.path.realpath(REPO))
+                if t2 != t:
+                    open(p, "w").write(t2)
+    return d
+
+
 def cargo_build(package, hook=False, features=None, release=False, timeout=3000, bin=None, extra_rustflags=""):
     """Build a harness package against /repo's working tree.  Returns (ok, exe path, log)."""
-    lock = os.path.join(HARNESS, "Cargo.lock")
+    hdir = harness_dir()
+    lock = os.path.join(hdir, "Cargo.lock")
     if not os.path.exists(lock):
         shutil.copy(os.path.join(REPO, "Cargo.lock"), lock)
-    tdir = os.path.join(HARNESS, "target" + ("-hook" if hook else ""))
+    tdir = os.path.join(hdir, "target" + ("-hook" if hook else ""))
     cmd = ["cargo", "build", "--offline", "-p", package, "--target-dir", tdir]
     if release:
         cmd.append("--release")
@@ -302,8 +345,8 @@ def cargo_build(package, hook=False, features=None, release=False, timeout=3000,
         flags = ("--cfg %s " % HOOK_CFG) + flags
     if flags.strip():
         env["RUSTFLAGS"] = flags.strip()
-    with Lock("cargo" + ("-hook" if hook else "")):
-        rc, out = sh(cmd, cwd=HARNESS, timeout=timeout, env=env)
+    with Lock("cargo" + ("-hook" if hook else "") + os.path.basename(hdir)):
+        rc, out = sh(cmd, cwd=hdir, timeout=timeout, env=env)
     exe = os.path.join(tdir, "release" if release else "debug", bin or package)
     return rc == 0, exe, out
 
